@@ -151,6 +151,18 @@ fn pop_scope(
   binary_expr_cx.pop_scope();
 }
 
+/// Whether a `break` of the loop whose body is `stmts` occurs in it (breaks of nested loops do not count).
+fn contains_break_of_this_loop(stmts: &[Statement]) -> bool {
+  stmts.iter().any(|stmt| match stmt {
+    Statement::Break(_) => true,
+    Statement::IfElse { s1, s2, .. } => {
+      contains_break_of_this_loop(s1) || contains_break_of_this_loop(s2)
+    }
+    Statement::SingleIf { statements, .. } => contains_break_of_this_loop(statements),
+    _ => false,
+  })
+}
+
 fn optimize_stmt(
   stmt: &Statement,
   value_cx: &mut LocalValueContextForOptimization,
@@ -401,8 +413,11 @@ fn optimize_stmt(
           loop_value,
         })
         .collect_vec();
-      if let Some((Statement::Break(e), rest)) = stmts.split_last() {
+      if let Some((Statement::Break(e), rest)) = stmts.split_last()
+        && !contains_break_of_this_loop(rest)
+      {
         // Now we know that the loop will only loop once!
+        // (`rest` has no other break, so it can run outside of the loop.)
         for v in loop_variables {
           value_cx.checked_bind(v.name, v.initial_value);
         }
@@ -521,8 +536,10 @@ fn try_optimize_loop_for_some_iterations(
       binary_expr_cx,
       &mut first_run_optimized_stmts,
     );
-    if let Some(last_stmt) = first_run_optimized_stmts.last() {
-      if !last_stmt.is_break() {
+    if let Some((last_stmt, rest)) = first_run_optimized_stmts.split_last() {
+      // The first iteration can replace the loop only if it always ends in its final break:
+      // an earlier conditional break would otherwise be emitted outside of the loop.
+      if !last_stmt.is_break() || contains_break_of_this_loop(rest) {
         pop_scope(value_cx, index_access_cx, binary_expr_cx);
         return vec![Statement::While { loop_variables, statements: stmts, break_collector }];
       }
